@@ -329,6 +329,10 @@ def _clean(s):
     return re.sub(r'\b_\d+\b', '_', s)
 
 
+PROG = None
+WORKSPACE = ('breakpad_symbols', 'minidump', 'minidump_common', 'minidump_processor', 'minidump_stackwalk', 'minidump_synth', 'minidump_unwind')
+
+
 class CTree:
     """canonical form of expression trees of one function: every single-definition local (named or not) is replaced
     by its definition, so renaming a variable, hoisting a sub-expression into a `let` or re-ordering independent
@@ -336,9 +340,11 @@ class CTree:
     `self.multi` so that their definitions can be added to a slice; arguments are positional; the operands of
     commutative operators are sorted and `a > b` is written `b < a`."""
 
-    def __init__(self, fn):
+    def __init__(self, fn, consts=False):
         self.fn = fn
         self.multi = set()
+        self.consts = consts   # slices (not keys) carry the evaluated value of workspace integer constants, so that
+        # naming a literal (`40` -> `DEFAULT_SCAN_RANGE`) changes nothing and changing a constant's value does
 
     def leaf_ty(self, l):
         t = self.fn.local_ty(l) or '?'
@@ -360,6 +366,16 @@ class CTree:
                 self.multi.add(l)
                 return ('mvar', self.leaf_ty(l))
             return ('mvar', '?')
+        if h == 'item' and self.consts and PROG is not None:
+            cn = str(t[1]).split('::', 1)[0]
+            if cn in WORKSPACE:
+                try:
+                    v = PROG.crate(cn).consts.get(t[1], {}).get('int')
+                except Exception:
+                    v = None
+                if isinstance(v, int):
+                    return ('int', v)
+            return t
         if h in ('int', 'str', 'item', 'fnref', 'float', 'const', 'arg', 'bytes'):
             return t
         if h == 'field' and len(t) == 3 and isinstance(t[1], tuple) and t[1] and t[1][0] == 'var' and isinstance(t[1][2], int):
@@ -560,7 +576,7 @@ def canon_guards(fn, bb, ct, items, prefix='', within=None, relevant=None):
                     changed = True
         # loop decisions on other data: the decision itself stays in the slice, the definitions of the locals it mentions
         # do not (they say how the loop steers, not what the site computes)
-        side = CTree(fn)
+        side = CTree(fn, consts=True)
         for c, lab, inloop, at in pend:
             if inloop:
                 items.add('%sguard %s in %s' % (prefix, side.text(c)[:700], lab))
@@ -570,7 +586,7 @@ def canon_guards(fn, bb, ct, items, prefix='', within=None, relevant=None):
 
 def effect_summary(fn):
     """name-free summary of a function body: its calls and returns as canonical trees"""
-    ct = CTree(fn)
+    ct = CTree(fn, consts=True)
     items = set()
     for b in fn.reach:
         t = fn.blocks[b]['t']
@@ -588,7 +604,7 @@ def canon_closure_context(fn, crate, items, depth=0):
     if par is None or depth > 3:
         return
     pre = 'parent%d: ' % depth
-    ct = CTree(par)
+    ct = CTree(par, consts=True)
     for b in sorted(par.reach):
         for s in par.blocks[b]['s']:
             if s['k'] == 'assign' and s['rv']['k'] == 'agg' and s['rv'].get('ak') in ('closure', 'coroutine', 'coroutine_closure') and s['rv'].get('def') == fn.qual:
@@ -615,7 +631,7 @@ def canon_closure_context(fn, crate, items, depth=0):
 
 def canon_site_items(fn, crate, site_trees, kind, bb):
     items = set()
-    ct = CTree(fn)
+    ct = CTree(fn, consts=True)
     items.add('site %s %s' % (kind, ' ; '.join(ct.text(t) for t in site_trees)))
     rel = set()
     for t in site_trees:
@@ -631,7 +647,7 @@ def canon_loop_items(fn, crate, blocks):
     """the loop body as a set of canonical effects, each tagged with the (canonical) branch decisions inside the loop
     it executes under: calls, stores to locals with several definitions, stores through places, branch conditions"""
     items = set()
-    ct = CTree(fn)
+    ct = CTree(fn, consts=True)
     within = set(blocks)
     for b in blocks:
         tmp = set()
